@@ -362,10 +362,12 @@ func dispatchSign(ctx context.Context, submitterc chan []byte, signc chan *vss.S
 		select {
 		case <-ctx.Done():
 			close(out)
+			return
 		case sign := <-signc:
 			select {
 			case <-ctx.Done():
 				close(out)
+				return
 			case out <- sign:
 			}
 		}
